@@ -119,9 +119,10 @@ ctype = st.sampled_from([None, None, "application/octet-stream", "text/plain", "
 
 
 @st.composite
-def request_st(draw):
-    kind = draw(st.sampled_from(["none", "body", "body", "data", "fargs", "fargs"]))
-    req = {"method": draw(st.sampled_from(METHODS + ["POST", "PUT", "GET"])), "path": draw(path),
+def request_st(draw, kind=None, methods=None):
+    if kind is None:
+        kind = draw(st.sampled_from(["none", "body", "body", "data", "fargs", "fargs"]))
+    req = {"method": draw(st.sampled_from(methods or (METHODS + ["POST", "PUT", "GET"]))), "path": draw(path),
            "qargs": draw(qargs), "headers": draw(req_headers), "kind": kind,
            "via": draw(st.sampled_from(["append", "request"]))}
     if kind == "body":
@@ -185,11 +186,22 @@ sched_st = st.fixed_dictionaries({"a_send": sched_list, "a_recv": sched_list, "b
 
 @st.composite
 def case_st(draw):
+    mode = draw(st.integers(0, 5))
+    if mode == 0:
+        # two generated requests in a row through one Patron: every ordered pair of body kinds, mostly with
+        # methods that carry a body
+        ka, kb = draw(st.sampled_from([(a, b) for a in ("data", "body", "fargs", "none") for b in ("data", "body", "fargs", "none")]))
+        m = draw(st.sampled_from([None, ["POST", "PUT", "PATCH"], ["POST", "PUT", "PATCH"]]))
+        req = draw(request_st(kb, m))
+        case = {"req": req, "resp": draw(response_st(req["method"])), "sched": draw(sched_st)}
+        case["prevreq"] = draw(request_st(ka, m))
+        case["prev"] = draw(response_st(case["prevreq"]["method"]))
+        return case
     req = draw(request_st())
     case = {"req": req, "resp": draw(response_st(req["method"])), "sched": draw(sched_st)}
     # in a third of the cases the exchange under test is the SECOND one on its connection: a plain GET with a
     # generated response shape goes first (state left over by a previous response must not leak into this one)
-    if draw(st.integers(0, 2)) == 0:
+    if mode in (1, 2):
         case["prev"] = draw(response_st("GET"))
     return case
 
@@ -307,6 +319,22 @@ def expected_body(req):
     return b"", ""
 
 
+def _request_kw(req):
+    from ioflo.aid.odicting import odict
+    hdrs = odict((k, v) for k, v in req["headers"])
+    if req.get("ctype"):
+        hdrs["Content-Type"] = req["ctype"]
+    kw = odict([("method", req["method"]), ("path", req["path"]),
+                ("qargs", odict((k, v) for k, v in req["qargs"])), ("headers", hdrs)])
+    if req["kind"] == "body":
+        kw["body"] = req["body"]
+    elif req["kind"] == "data":
+        kw["data"] = json.loads(req["data_json"])
+    elif req["kind"] == "fargs":
+        kw["fargs"] = odict((k, v) for k, v in req["fargs"])
+    return kw
+
+
 def run_case(case):
     from ioflo.aid.odicting import odict
     req, resp = case["req"], case["resp"]
@@ -326,23 +354,16 @@ def run_case(case):
     mp = httppipe.memory_pair(app, case.get("sched"), redirectable=False)
     try:
         if prev:
-            mp.patron.request(method="GET", path="/warmup")
+            if case.get("prevreq"):
+                mp.patron.request(**_request_kw(case["prevreq"]))
+            else:
+                mp.patron.request(method="GET", path="/warmup")
             state, rounds, ex = httppipe.drive(mp, lambda: bool(mp.patron.responses) and not mp.patron.waited)
             if state != "done":
                 # the warm-up exchange itself is not this case's subject (C31 decides sequences)
                 return fails
             mp.patron.responses.clear()
-        hdrs = odict((k, v) for k, v in req["headers"])
-        if req.get("ctype"):
-            hdrs["Content-Type"] = req["ctype"]
-        kw = odict([("method", req["method"]), ("path", req["path"]),
-                    ("qargs", odict((k, v) for k, v in req["qargs"])), ("headers", hdrs)])
-        if req["kind"] == "body":
-            kw["body"] = req["body"]
-        elif req["kind"] == "data":
-            kw["data"] = json.loads(req["data_json"])
-        elif req["kind"] == "fargs":
-            kw["fargs"] = odict((k, v) for k, v in req["fargs"])
+        kw = _request_kw(req)
         if req.get("via") == "request":
             mp.patron.request(**kw)
         else:
